@@ -36,6 +36,7 @@ import (
 	"google.golang.org/protobuf/types/known/timestamppb"
 
 	"verifharness/rig"
+	"verifharness/sched"
 )
 
 // ---------------------------------------------------------------------------------------------
@@ -149,6 +150,26 @@ func step(e *env, path string, g, i int) error {
 		return index(e, sw, hydrapb.IndexType_EXPIRATION_TIME, hydrapb.OrderType_Type(i%2))
 	case "idx_val":
 		return index(e, sw, hydrapb.IndexType_VALUE_INT64, hydrapb.OrderType_Type(i%2))
+	case "fstream", "fstream_cold": // filtered stream whose filter is answered from an auto-built field bucket; the
+		// "cold" variant names a new body field every time, so every call is the FIRST query on that field and builds the bucket
+		field := "n"
+		if path == "fstream_cold" {
+			field = "f" + strconv.Itoa(g) + "_" + strconv.Itoa(i/len(e.swamps))
+		}
+		st, err := e.grpc.GetByIndexStream(ctx, &hydrapb.GetByIndexStreamRequest{IslandID: 1, SwampName: sw, IndexType: hydrapb.IndexType_KEY, Limit: 0,
+			Filters: &hydrapb.FilterGroup{Filters: []*hydrapb.TreasureFilter{{Operator: hydrapb.Relational_EQUAL, BytesFieldPath: &field,
+				CompareValue: &hydrapb.TreasureFilter_Int64Val{Int64Val: int64(i % nM)}}}}})
+		if err != nil {
+			return err
+		}
+		for {
+			if _, err := st.Recv(); err != nil {
+				if err == io.EOF {
+					return nil
+				}
+				return err
+			}
+		}
 	case "stream": // server-streaming index read with a native filter, through the real gRPC stack
 		st, err := e.grpc.GetByIndexStream(ctx, &hydrapb.GetByIndexStreamRequest{IslandID: 1, SwampName: sw, IndexType: hydrapb.IndexType_KEY, Limit: 0,
 			Filters: &hydrapb.FilterGroup{Filters: []*hydrapb.TreasureFilter{{Operator: hydrapb.Relational_GREATER_THAN_OR_EQUAL, CompareValue: &hydrapb.TreasureFilter_Int64Val{Int64Val: 0}}}}})
@@ -168,7 +189,7 @@ func step(e *env, path string, g, i int) error {
 }
 
 var Writers = []string{"set_new", "set_upd", "inc", "patch", "del", "shift"}
-var Readers = []string{"get", "getall", "getbykeys", "count", "exists", "idx_key", "idx_ctime", "idx_utime", "idx_exp", "idx_val", "stream"}
+var Readers = []string{"get", "getall", "getbykeys", "count", "exists", "idx_key", "idx_ctime", "idx_utime", "idx_exp", "idx_val", "stream", "fstream", "fstream_cold"}
 
 func child(mixFile, outFile string) error {
 	var m Mix
@@ -192,7 +213,7 @@ func child(mixFile, outFile string) error {
 	e := &env{r: r}
 	needGRPC := false
 	for _, p := range m.Paths {
-		if p == "stream" {
+		if p == "stream" || p == "fstream" || p == "fstream_cold" {
 			needGRPC = true
 		}
 	}
@@ -241,59 +262,105 @@ func child(mixFile, outFile string) error {
 	// concurrent phase
 	type perG struct {
 		Path   string `json:"path"`
-		Done   int    `json:"done"`
-		Errs   int    `json:"errs"`
-		Panics int    `json:"panics"`
+		Done   int64  `json:"done"`
+		Errs   int64  `json:"errs"`
+		Panics int64  `json:"panics"`
 		Panic  string `json:"panic,omitempty"`
 	}
-	res := make([]perG, len(m.Paths))
+	n := len(m.Paths)
+	done := make([]atomic.Int64, n)
+	errs := make([]atomic.Int64, n)
+	panics := make([]atomic.Int64, n)
+	firstPanic := make([]atomic.Value, n)
+	goids := make([]atomic.Int64, n)
+	finished := make([]atomic.Bool, n)
+	var progress atomic.Int64
 	start := make(chan struct{})
 	var wg sync.WaitGroup
-	var live atomic.Int32
 	for g, p := range m.Paths {
 		wg.Add(1)
-		res[g].Path = p
 		go func(g int, p string) {
 			defer wg.Done()
-			live.Add(1)
-			defer live.Add(-1)
+			defer finished[g].Store(true)
+			goids[g].Store(sched.GoID())
 			<-start
 			for i := 0; i < m.Iters; i++ {
 				func() {
 					defer func() {
 						if rc := recover(); rc != nil {
-							res[g].Panics++
-							if res[g].Panic == "" {
+							if panics[g].Add(1) == 1 {
 								buf := make([]byte, 8192)
-								res[g].Panic = fmt.Sprint(rc) + "\n" + string(buf[:runtime.Stack(buf, false)])
+								firstPanic[g].Store(fmt.Sprint(rc) + "\n" + string(buf[:runtime.Stack(buf, false)]))
 							}
 						}
 					}()
 					if err := step(e, p, g, i); err != nil {
-						res[g].Errs++
+						errs[g].Add(1)
 					}
-					res[g].Done++
+					done[g].Add(1)
+					progress.Add(1)
 				}()
 			}
 		}(g, p)
 	}
 	close(start)
-	done := make(chan struct{})
-	go func() { wg.Wait(); close(done) }()
-	hang := ""
-	select {
-	case <-done:
-	case <-time.After(150 * time.Second):
-		buf := make([]byte, 1<<20)
-		hang = string(buf[:runtime.Stack(buf, true)])
+	all := make(chan struct{})
+	go func() { wg.Wait(); close(all) }()
+	// Watchdog.  "Hang" means: no request completed for a long time AND every unfinished request goroutine is parked
+	// (not running / runnable) on two looks.  A slow machine is not a hang.
+	hang, slow := "", false
+	last, lastChange, t0 := int64(-1), time.Now(), time.Now()
+	parked := func() bool {
+		st := sched.States()
+		for g := range m.Paths {
+			if finished[g].Load() {
+				continue
+			}
+			s := st[goids[g].Load()]
+			if s == "" || strings.HasPrefix(s, "running") || strings.HasPrefix(s, "runnable") || strings.HasPrefix(s, "syscall") || strings.HasPrefix(s, "IO wait") || strings.HasPrefix(s, "sleep") {
+				return false
+			}
+		}
+		return true
 	}
-	out := map[string]any{"mix": m.ID, "goroutines": res, "hang": hang}
+loop:
+	for {
+		select {
+		case <-all:
+			break loop
+		case <-time.After(2 * time.Second):
+		}
+		if p := progress.Load(); p != last {
+			last, lastChange = p, time.Now()
+			continue
+		}
+		if time.Since(lastChange) > 90*time.Second && parked() {
+			time.Sleep(3 * time.Second)
+			if progress.Load() == last && parked() {
+				buf := make([]byte, 1<<20)
+				hang = string(buf[:runtime.Stack(buf, true)])
+				break loop
+			}
+		}
+		if time.Since(t0) > 900*time.Second {
+			slow = true
+			break loop
+		}
+	}
+	res := make([]perG, n)
+	for g, p := range m.Paths {
+		res[g] = perG{Path: p, Done: done[g].Load(), Errs: errs[g].Load(), Panics: panics[g].Load()}
+		if v := firstPanic[g].Load(); v != nil {
+			res[g].Panic = v.(string)
+		}
+	}
+	out := map[string]any{"mix": m.ID, "goroutines": res, "hang": hang, "slow": slow}
 	ob, _ := json.Marshal(out)
 	if err := os.WriteFile(outFile, ob, 0o644); err != nil {
 		return err
 	}
-	if hang != "" {
-		os.Exit(0) // blocked goroutines cannot be joined
+	if hang != "" || slow {
+		os.Exit(0) // unfinished goroutines cannot be joined
 	}
 	return nil
 }
@@ -468,7 +535,7 @@ func runPlan(planFile, outFile string) error {
 			killed := false
 			select {
 			case werr = <-done:
-			case <-time.After(420 * time.Second):
+			case <-time.After(1000 * time.Second):
 				cmd.Process.Kill()
 				werr = <-done
 				killed = true
@@ -492,6 +559,10 @@ func runPlan(planFile, outFile string) error {
 				var cr map[string]any
 				if json.Unmarshal(rb, &cr) == nil {
 					sum["goroutines"] = cr["goroutines"]
+					if sl, _ := cr["slow"].(bool); sl {
+						emit(map[string]any{"kind": "infra", "mix": m.ID, "paths": m.Paths, "msg": "mix did not finish within 900 s although its goroutines were running (slow machine)"})
+						sum["slow"] = true
+					}
 					if h, _ := cr["hang"].(string); h != "" {
 						emit(map[string]any{"kind": "hang", "mix": m.ID, "paths": m.Paths, "raw": h[:min(len(h), 6000)]})
 						sum["hang"] = true
@@ -519,8 +590,8 @@ func runPlan(planFile, outFile string) error {
 					emit(f)
 					sum["fatal"] = f["msg"]
 				} else if killed {
-					emit(map[string]any{"kind": "hang", "mix": m.ID, "paths": m.Paths, "raw": "child killed after 420 s without a result"})
-					sum["hang"] = true
+					emit(map[string]any{"kind": "infra", "mix": m.ID, "paths": m.Paths, "msg": "child killed after 1000 s without a result"})
+					sum["slow"] = true
 				} else {
 					se := stderr.String()
 					emit(map[string]any{"kind": "infra", "mix": m.ID, "msg": fmt.Sprint(werr), "raw": se[max(0, len(se)-2000):]})
